@@ -60,6 +60,11 @@ def iter_spec(rng: random.Random, name: str, maxlen: int = 8) -> dict:
         else:
             srcs = [keys_seq(rng, min(maxlen, 5)) for _ in range(n)]
         spec = {"tool": name, "srcs": srcs, "fns": [], "params": {}}
+        if name != "map" and rng.random() < 0.2:
+            # plain values incl. None / falsy ones: nothing but identity may serve as "no item" marker
+            spec["raw"] = True
+            pool = [None, None, 0, False, "", 1, ["T"]]
+            spec["srcs"] = [[rng.choice(pool) for _ in src] for src in srcs]
         if name == "map":
             spec["fns"] = ["mk"]
         if name == "zip_longest" and rng.random() < 0.5:
